@@ -246,6 +246,16 @@ func c20(r *core.Run) {
 			n := pop("versions")
 			k.AddKey(m.FullKeyName(id), drawStates(r, n, true), time.Duration(r.Intn(90, "pending-s"))*time.Second)
 		}
+		// does the key already have a version bootstrap must select (ENABLED) or wait for (PENDING)?
+		usable, _, nvBefore := false, 0, 0
+		if kk := k.key(m.FullKeyName(id)); kk != nil {
+			nvBefore = len(kk.versions)
+			for _, v := range kk.versions {
+				if st := v.StateNow(); st == kmspb.CryptoKeyVersion_ENABLED || st == kmspb.CryptoKeyVersion_PENDING_GENERATION {
+					usable = true
+				}
+			}
+		}
 		rpcFault()
 		setBound()
 		var name string
@@ -258,6 +268,9 @@ func c20(r *core.Run) {
 		_, nv := k.Population(ring)
 		r.Eval(r.Fingerprint(), fired() || nv > 100)
 		r.Eventf("bootstrap-key %s -> ok=%v", id, err == nil)
+		if kk := k.key(m.FullKeyName(id)); kk != nil && usable && len(kk.versions) > nvBefore && !fired() {
+			r.Fail("bootstrap-picked-non-enabled", "created-instead-of-selecting", "bootstrap created key version #%d although the key already had an enabled or pending version among its %d (paging policy %d): the listing was not accounted for", len(kk.versions), nvBefore, k.Paging)
+		}
 		if err == nil {
 			r.Probe("bootstrap-returned-version")
 			v := k.version(name)
